@@ -315,8 +315,9 @@ class _ResultPusher(mt.Thread):
         task['stderr']       = [t['stderr']       for t in self._cache[uid]]
         task['return_value'] = [t['return_value'] for t in self._cache[uid]]
 
+        # a rank which got killed by a signal reports a negative exit code
         exit_codes           = [t['exit_code']    for t in self._cache[uid]]
-        task['exit_code']    = sorted(list(set(exit_codes)))[-1]
+        task['exit_code']    = sorted(list(set(exit_codes)), key=abs)[-1]
 
         return True
 
